@@ -115,10 +115,12 @@ C13_NOT_DELIM_MODES = ("ExpectSemiOrEOF", "MacroDo", "MacroLocalGlobal", "MacroN
              'would consume without touching its nesting count), and R-WS-ORDER for the modes that decide call / '
              "definition delimiters (a mode that gives up on a blank is entered behind the whitespace skipper, so a "
              'blank or comment in front of a comma, parenthesis or = does not turn it into text), R-FAMILY-AGREE (the '
-             'Q/K/QK flavours of a built-in lex each argument in the same mode - expression or text - as the built-in). Decides the '
+             'Q/K/QK flavours of a built-in lex each argument in the same mode - expression or text - as the built-in), R-MARK-WS '
+             '(in operand scanners the pending whitespace mark spans only blanks and is placed before the blank it covers, so '
+             'an integer operand followed by a line break stays a standalone operand). Decides the '
              'masking mechanics, not operator classification.')
 def c13(cx):
-    lea_glue.apply(cx, ["R-NESTING-FLUSH", "R-DEPTH-GUARD", "R-PRECONSUME", "R-WS-ORDER", "R-FAMILY-AGREE"],
+    lea_glue.apply(cx, ["R-NESTING-FLUSH", "R-DEPTH-GUARD", "R-PRECONSUME", "R-WS-ORDER", "R-FAMILY-AGREE", "R-MARK-WS"],
                    only={"R-WS-ORDER": lambda k: not k.startswith(C13_NOT_DELIM_MODES)})
 
 
